@@ -261,9 +261,12 @@ def check_text(ctx, lib, rng, case_seed):
             return False
     # reprs of Node / AnyNode
     sep = rng.choice(["/", "|", "::"])
-    NodeS = type("NodeS", (Node,), {"separator": sep})
+    NodeS = type("NodeS", (Node,), {"separator": sep, "color": "grey", "zz": None})  # class-level defaults some instances override
     names = [rng.choice(["a", "b b", "q'uote", 7, 2.5, None, "x\ny", "é", ("x",), (), ("a", "b"), b"by", frozenset([1])]) for _ in range(n)]
     attrs = [gen.random_attrs(rng, json_only=False, identifiers_only=True, maxkeys=4) for _ in range(n)]
+    for a in attrs:
+        if rng.random() < 0.4:
+            a[rng.choice(["color", "zz"])] = rng.choice(["red", 3, None])
     nn = [NodeS(names[i], **attrs[i]) for i in range(n)]
     aa = [AnyNode(**attrs[i]) for i in range(n)]
     for i, p in enumerate(par):
